@@ -483,9 +483,9 @@ theorem okFields_complete (c : Cfg) (hc : c.pinned = false) :
     unfold okFields at h
     simp only [Bool.and_eq_true] at h
     have hrep : c.repaired = c := by cases c; simp_all [Cfg.repaired]
-    obtain ⟨v, hv⟩ := fieldCore_complete (wv := fun o j => withValue c.nest o t j) (ar := fun _ => absentRequired c t)
+    obtain ⟨v, hv⟩ := fieldCore_complete (wv := fun o j => withValue (c.nestIn m) o t j) (ar := fun _ => absentRequired c t)
       (dv := defaultVal c t) (z := zero t) hc
-      (fun om j hj => okTy_complete c.nest (Cfg.nest_pinned hc) t om j hj)
+      (fun om j hj => okTy_complete (c.nestIn m) (Cfg.nest_pinned hc) t om j hj)
       (fun ha => okAbsent_complete c hc t ha)
       (fun d hd => by
         rw [hrep] at hd
